@@ -234,6 +234,9 @@ class Store:
         self.units = None
         self.divider = None
         self.emit = False
+        # the flag of the last branch-level ``_emit`` that covered this
+        # store (None: none yet): nodes added below later follow it
+        self.branch_emit = None
         self.sources = {}
         self.leaf = False
         self.serializer = None
@@ -1095,6 +1098,7 @@ class Store:
             target = self.get_path(path)
             target.set_emit_value(emit=emit)
         elif self.inner or self.subschema:
+            self.branch_emit = emit
             for child in self.inner.values():
                 child.set_emit_value(emit=emit)
             # children that are added to this branch later are built
@@ -1878,6 +1882,9 @@ class Store:
                     self.subschema,
                     subtopology,
                     source=self.path_for() + ('*',))
+            if self.branch_emit is not None and len(path) == 1:
+                # a node that joins a branch with a branch-level flag
+                inner.set_emit_value(emit=self.branch_emit)
             inner._apply_subschema_path(path[1:])
 
     def _apply_subschema(self, subschema=None, subtopology=None):
